@@ -19,7 +19,7 @@ func init() {
 		Rule: "reference-multiplexed streams (2..4 PIDs, PES bounded/unbounded salted with start codes, PAT/PMT, SI) under packet-level fault plans: every single-packet duplication (directly after the original " +
 			"and after intervening packets of other PIDs) and every single-packet deletion of every stream; random multi-fault plans (deletion bursts 1..15, duplicates, transport_error_indicator, " +
 			"discontinuity_indicator, adaptation-only insertions); all fault words of length 7 over {none,dup,delete,TEI,AF-only,DI} on a 2-PID micro stream; the output is compared with the fault-free " +
-			"output using the model's knowledge of which units each fault touched; plus units of 257..3500 packets behind and around gaps and duplicates (stage giant), duplicates with re-stamped clocks that must be invisible — everything delivered compared, first packets included — and 21 kinds of look-alikes (same counter and payload, another header / adaptation field flag or value) as a receiver sees them after 15 lost packets (stage near-dup), sessions that restart in the middle of a unit under discontinuity_indicator (alone or next to PCR / OPCR / random access / splice / private data / extension) with 1..4 packets lost in front such that the counters line up (stage flagged); distinct = hash of the faulted stream; non-trivial = at least one fault applied",
+			"output using the model's knowledge of which units each fault touched; plus units of 257..3500 packets behind and around gaps and duplicates (stage giant), duplicates with re-stamped clocks that must be invisible — everything delivered compared, first packets included — and 21 kinds of look-alikes (same counter and payload, another header / adaptation field flag or value) as a receiver sees them after 15 lost packets (stage near-dup), sessions that restart in the middle of a unit under discontinuity_indicator (alone or next to PCR / OPCR / random access / splice / private data / extension) with 1..4 packets lost in front such that the counters line up (stage flagged), a damaged copy marked with transport_error_indicator next to the good copy of every packet in either order and marked packets without payload (nothing is lost: nothing may be missing), true duplicates also compared through an observing PacketsParser; distinct = hash of the faulted stream; non-trivial = at least one fault applied",
 		Assumptions: []string{"loss plans satisfy the property's precondition: < 16 packets lost in a row on a PID and a later payload packet of that PID survives (plans that do not are skipped and counted)",
 			"a packet with discontinuity_indicator is treated as preceded by a gap", "errors returned by NextData are not units", "on PSI PIDs a duplicate may cause a repeated delivery equal to its neighbour"},
 		Shards: 32,
@@ -33,6 +33,7 @@ func init() {
 			need(m, &out, "gap_burst_15", 5)
 			need(m, &out, "giant_unit_plans", 200)
 			need(m, &out, "near_duplicate_cases", 250)
+			need(m, &out, "marked_copies", 3000)
 			need(m, &out, "flagged_discontinuity_cases", 250)
 			need(m, &out, "dup_position_first", 100)
 			need(m, &out, "dup_position_middle", 100)
@@ -53,9 +54,13 @@ const (
 	fTEI
 	fAFOnly
 	fDI
+	fDupTEI1   // the packet arrives twice, the FIRST copy damaged and marked with transport_error_indicator: nothing is lost
+	fDupTEI2   // ... the SECOND copy damaged and marked
+	fAFOnlyTEI // a packet without payload, marked with transport_error_indicator, in front of the packet: nothing is lost
+	fDelAFOnly // the packet is lost; a packet without payload that the sender emitted in front of it (a PCR on its own) arrives
 )
 
-var fnames = [...]string{"none", "dup", "del", "tei", "afonly", "di"}
+var fnames = [...]string{"none", "dup", "del", "tei", "afonly", "di", "dup-first-copy-tei", "dup-second-copy-tei", "afonly-tei", "del-after-afonly"}
 
 // applyFaults returns the faulted packet list. dupDelay[k] > 0 places the duplicate after that many packets of other PIDs.
 func applyFaults(pk []*astits.Packet, f []fkind, dupDelay []int) []*astits.Packet {
@@ -92,6 +97,25 @@ func applyFaults(pk []*astits.Packet, f []fkind, dupDelay []int) []*astits.Packe
 			continue
 		case fAFOnly:
 			out = append(out, &astits.Packet{Header: astits.PacketHeader{PID: p.Header.PID, HasAdaptationField: true, ContinuityCounter: prevCC},
+				AdaptationField: &astits.PacketAdaptationField{StuffingLength: 182}})
+			out = append(out, p)
+		case fDupTEI1, fDupTEI2:
+			q := mon.Clone(p)
+			q.Header.TransportErrorIndicator = true
+			if len(q.Payload) > 0 {
+				q.Payload[len(q.Payload)/2] ^= 0x5a
+			}
+			if f[k] == fDupTEI1 {
+				out = append(out, q, p)
+			} else {
+				out = append(out, p, q)
+			}
+		case fDelAFOnly:
+			out = append(out, &astits.Packet{Header: astits.PacketHeader{PID: p.Header.PID, HasAdaptationField: true, ContinuityCounter: prevCC},
+				AdaptationField: &astits.PacketAdaptationField{StuffingLength: 182}})
+			continue
+		case fAFOnlyTEI:
+			out = append(out, &astits.Packet{Header: astits.PacketHeader{PID: p.Header.PID, HasAdaptationField: true, ContinuityCounter: prevCC, TransportErrorIndicator: true},
 				AdaptationField: &astits.PacketAdaptationField{StuffingLength: 182}})
 			out = append(out, p)
 		case fDI:
@@ -172,7 +196,7 @@ func (cr *cleanRef) judge(c *mon.Ctx, stage string, idx int64, f []fkind, faulte
 	// a loss-type fault on the PAT PID may leave PMT PIDs unknown: the dependence the properties allow
 	patHit := false
 	for k, x := range f {
-		if x != fNone && x != fDup && x != fAFOnly && s.Packets[k].Header.PID == 0 {
+		if x != fNone && x != fDup && x != fAFOnly && x != fDupTEI1 && x != fDupTEI2 && x != fAFOnlyTEI && s.Packets[k].Header.PID == 0 {
 			patHit = true
 		}
 	}
@@ -188,14 +212,14 @@ func (cr *cleanRef) judge(c *mon.Ctx, stage string, idx int64, f []fkind, faulte
 		allowed := map[*gen.Unit]bool{}
 		lossy := false
 		for j, k := range idxs {
-			lost := f[k] == fDel || f[k] == fTEI
+			lost := f[k] == fDel || f[k] == fTEI || f[k] == fDelAFOnly
 			di := f[k] == fDI && s.Packets[k].AdaptationField != nil && !s.Packets[k].AdaptationField.IsOneByteStuffing
 			if lost {
 				lossy = true
 				allowed[s.Owner[k]] = true
 				if j > 0 {
 					pk := idxs[j-1]
-					if !(f[pk] == fDel || f[pk] == fTEI) {
+					if !(f[pk] == fDel || f[pk] == fTEI || f[pk] == fDelAFOnly) {
 						allowed[s.Owner[pk]] = true
 					}
 				}
@@ -417,6 +441,37 @@ func nearDuplicateCase(c *mon.Ctx, idx int64, r *rand.Rand) {
 			}
 		}
 		c.Count("duplicates_compared_with_first_packet")
+		// ... and what a PacketsParser is handed: the packets of each unit - header, adaptation field with its clock values,
+		// payload - are those of the stream without the duplicate (the copy that arrived first stays, the second one is dropped)
+		groups := func(b []byte) ([]string, string) {
+			var gs []string
+			prs := func(ps []*astits.Packet) ([]*astits.DemuxerData, bool, error) {
+				g := ""
+				for _, p := range ps {
+					g += mon.DumpString(p) + "\n"
+				}
+				gs = append(gs, g)
+				return nil, false, nil
+			}
+			run := RunDemux(b, DemuxCfg{PacketSize: 188, Reader: "seek", API: "data", Parser: prs, MaxCalls: len(b)/188 + 64})
+			return gs, run.Panic
+		}
+		gd, pd := groups(s.b)
+		gc, _ := groups(build(false).b)
+		switch {
+		case pd != "":
+			c.Violate("C06/near-duplicate/panic:"+v.name, "near-dup", idx, pd, data)
+		case len(gd) != len(gc):
+			c.Violate("C06/dup/packets-handed-to-parser-changed-by-duplicate:"+v.name, "near-dup", idx, fmt.Sprintf("%d groups with the duplicate, %d without", len(gd), len(gc)), data)
+		default:
+			for k := range gd {
+				if gd[k] != gc[k] {
+					c.Violate("C06/dup/packets-handed-to-parser-changed-by-duplicate:"+v.name, "near-dup", idx, fmt.Sprintf("group %d with the duplicate:\n%s\nwithout:\n%s", k, gd[k], gc[k]), data)
+					break
+				}
+			}
+		}
+		c.Count("duplicates_compared_through_a_packets_parser")
 		return
 	}
 	// not a duplicate: the unit it sits in may be missing, everything delivered is a unit of the stream, the others are all there
@@ -602,6 +657,15 @@ func giantFaultCase(c *mon.Ctx, idx int64, r *rand.Rand) {
 			}
 		})
 	}
+	// ... and between the duplicate and the gap a packet without payload arrives (a PCR on its own, sent in front of the first
+	// packet that is lost): it does not make the survivor a second copy either
+	plan(func(f []fkind) {
+		f[at(us[2], 130)] = fDup
+		f[at(us[2], 131)] = fDelAFOnly
+		for q := 2; q <= 15; q++ {
+			f[at(us[2], 130+q)] = fDel
+		}
+	})
 	// 15 packets lost, the survivor carries the counter and the payload of the last packet before the gap, but another header
 	plan(func(f []fkind) {
 		for q := 1; q <= 15; q++ {
@@ -706,6 +770,16 @@ func runC06(c *mon.Ctx) {
 			continue
 		}
 		N := len(s.Packets)
+		// a copy of a packet that arrives damaged and marked (transport_error_indicator) next to the good one, in either order, and a
+		// marked packet without payload: the receiver has every byte, nothing may go missing
+		for k := 0; k < N; k++ {
+			for _, x := range []fkind{fDupTEI1, fDupTEI2, fAFOnlyTEI} {
+				f := make([]fkind, N)
+				f[k] = x
+				cr.judge(c, "streams", i, f, applyFaults(s.Packets, f, nil), "marked-copy")
+				c.Count("marked_copies")
+			}
+		}
 		// every single duplication, immediate and delayed
 		for k := 0; k < N; k++ {
 			for _, delay := range []int{0, 1 + r.IntN(3)} {
